@@ -44,13 +44,13 @@ def dotifyAux (stride : Nat) : Nat → List Nat → List Nat
     if stride < buf.length then buf.take stride ++ dot :: dotifyAux stride fuel (buf.drop stride) else buf
 
 /-- util/dotify.go Dotify (a dot after every `stride` characters while more than `stride` remain) -/
-def dotify (buf : List Nat) : List Nat := dotifyAux SA.Gen.dotifyStride buf.length buf
+def dotify (buf : List Nat) : List Nat := dotifyAux SA.Gen.C09.dotifyStride buf.length buf
 
 /-- util/consts.go PrepareHostname; none = ErrTooLong -/
 def prepareHostname (data domain : List Nat) : Option (List Nat) :=
   let d := if data.length > SA.Gen.labelMaxLen then dotify data else data
   let h := d ++ dot :: (domain ++ [dot])
-  if h.length > SA.Gen.hostnameMaxLen - SA.Gen.prepareSlack then none else some h
+  if h.length > SA.Gen.hostnameMaxLen - SA.Gen.C09.prepareSlack then none else some h
 
 /-- util/consts.go GetLongestDataString (Int: negative for over-long domains) -/
 def longestDataString (domainLen : Nat) : Int :=
